@@ -58,7 +58,7 @@ NARROW_ONLY = ['svb_unchecked_calculate_new_capacity', 'svb_append_element__pcE'
                'svb_insert_copies', 'svb_append_range__strong_pcE_pcE', 'svb_assign_with_range__pcE_pcE', 'svb_ctor__pcE_pcE_pcA', 'svb_ctor__ul_pcE_pcA',
                'ai_external_range_length__pcE_pcE', 'svb_assign_with_copies', 'svb_emplace_into_reallocation__pE_pcE', 'sv_max_size', 'sv_size']
 add(_c('u8', defines=['NDEBUG', 'VT_SIZE_T=std::uint8_t'], only=NARROW_ONLY, size_type='unsigned char',
-       model_defines={'SIZE_T_MAX_CFG': 'UCHAR_MAX', 'DIFF_T_MAX_CFG': 'SCHAR_MAX'}, alloc_max_bound='255ul', cap_bound='255u', facts=dict(_PF, NARROW=1)))
+       model_defines={'SIZE_T_MAX_CFG': 'UCHAR_MAX', 'DIFF_T_MAX_CFG': 'SCHAR_MAX'}, alloc_max_bound='255ul', cap_bound='255u', abbr_map={'uc': 'ul', 'sc': 'l'}, facts=dict(_PF, NARROW=1)))
 
 # the configuration class excluded everywhere else: inline capacity larger than max_size () (known finding KF-C12-1)
 add(_c('kf_inline_gt_max', model_defines={'KF_INLINE_EXCEEDS_MAX_SIZE': 1}, only=['svb_append_element__pcE'], props=['C12'],
@@ -72,6 +72,8 @@ def cfg_defines(cfg):
         d.append('-DCFG_HAS_M')
     if cfg.get('M') is not None and str(cfg['M']) == '0':
         d.append('-DCFG_M_ZERO')
+    if cfg.get('size_type'):
+        d.append('-DSIZE_TY=%s' % cfg['size_type'])
     for k, v in cfg.get('model_defines', {}).items():
         d.append('-D%s=%s' % (k, v))
     for k, v in cfg.get('facts', {}).items():
